@@ -192,6 +192,18 @@ Fixpoint hist_code (e : env) (fs : fmap) (ops : list op) (obs : list bobs) : Z :
             if c =? 0 then hist_code e fin r obs' else c
           else 0
       end
+  | OAdj paths procs milli :: r =>
+      (* old and new are recomputed from the files the history left, never taken from the call *)
+      match obs with
+      | [] => 9
+      | (ws, fin) :: obs' =>
+          let o := get fs (hd 0 paths) in
+          let new := adj_new procs milli o in
+          if be_hyps e fs paths o new then
+            let c := prop_code e fs [be_updaters paths new] ws fin in
+            if c =? 0 then hist_code e fin r obs' else c
+          else 0
+      end
   end.
 
 (* the model's observable history *)
